@@ -55,7 +55,7 @@ func planC09(tier string, root *simcore.RNG) *plan {
 	}
 	nsig, nvar := 14, 130
 	if tier == "thorough" {
-		nsig, nvar = 60, 2600
+		nsig, nvar = 70, 3600
 	}
 	cat := c09catalogue(root.Fork(), nsig)
 	// canonical executions
